@@ -30,7 +30,7 @@ pub struct C01;
 #[derive(Serialize, Deserialize, Clone, Debug)]
 pub struct Req {
     pub method: String,
-    /// "/ok" "/echo" "/empty" "/big" "/panic" "/cors/x" "/nope"
+    /// "/ok" "/echo" "/empty" "/big" "/huge" "/panic" "/cors/x" "/nope"
     pub path: String,
     #[serde(default)]
     pub query: String,
@@ -100,6 +100,11 @@ pub const LENIENT: [&str; 2] = ["bare-lf", "bare-lf-multibyte"];
 
 pub fn big_body() -> Vec<u8> {
     (0..20_000u32).map(|i| b'a' + (i % 26) as u8).collect()
+}
+
+/// A body larger than any socket buffer of the simulated network (and than 64 KiB).
+pub fn huge_body() -> Vec<u8> {
+    (0..150_000u32).map(|i| b'A' + ((i / 7 + i % 13) % 26) as u8).collect()
 }
 
 pub fn render(r: &Req, cid: usize, seq: usize) -> Vec<u8> {
@@ -179,6 +184,7 @@ pub fn route_model(r: &Req) -> (u16, Vec<u8>, bool, bool) {
         "/echo" => (200, echo(r), true, false),
         "/empty" => (200, Vec::new(), true, false),
         "/big" => (200, big_body(), true, false),
+        "/huge" => (200, huge_body(), true, false),
         "/panic" => (200, Vec::new(), true, false),
         p if p.starts_with("/cors/") => (200, b"cors-body".to_vec(), true, true),
         _ => (404, b"<html><body><h1>404 Not Found</h1></body></html>".to_vec(), false, false),
@@ -287,6 +293,10 @@ pub fn build_app(threads: usize, timeout_ms: Option<u64>, cors: &str) -> (App<HS
         .with_route("/empty", |req: Request, st: Arc<HState>| {
             note(&req, &st);
             Response::empty(StatusCode::OK)
+        })
+        .with_route("/huge", |req: Request, st: Arc<HState>| {
+            note(&req, &st);
+            Response::new(StatusCode::OK, huge_body())
         })
         .with_route("/big", |req: Request, st: Arc<HState>| {
             note(&req, &st);
@@ -749,6 +759,10 @@ fn gen_req(rng: &mut Rng, last: bool, allow_special: bool) -> Req {
     if allow_special && rng.chance(1, 14) {
         path = "/panic".into();
     }
+    // (a separate draw, so that the other dimensions keep their values)
+    if Rng::new(humsim::rng::mix(&[rng.next_u64(), 0xC01_0002])).chance(1, 16) && path != "/panic" {
+        path = "/huge".into();
+    }
     let conn = if last && rng.chance(1, 2) {
         match rng.below(3) {
             0 => Some("close".to_string()),
@@ -874,7 +888,7 @@ impl Prop for C01 {
         }
     }
     fn rule(&self) -> &'static str {
-        "One case = a generated application configuration (pool 1..4 threads, connection timeout none / 1..30 s, CORS wildcard/list/none) plus 1..4 (thorough 1..8) client scripts of 1..6 requests over 5 methods x 7 targets x 2 versions x Connection variants x bodies 0..9000 bytes x malformed kinds x idle gaps, an explicit segmentation (cut offsets + inter-segment gap) of the client byte stream, lock-step or streamed pacing, an ending (close / half-close / wait / RST) and optional truncation of the last request, all under one seeded schedule and seeded network knobs (short reads/writes, default segmentation, tiny windows, latency). Distinct = distinct history shape: per client the sequence of (method, target kind, well-formedness, pacing, number of segments, statuses received, how the connection ended). Non-trivial = at least two requests on one connection or two overlapping connections, and at least one cut inside a request."
+        "One case = a generated application configuration (pool 1..4 threads, connection timeout none / 1..30 s, CORS wildcard/list/none) plus 1..4 (thorough 1..8) client scripts of 1..6 requests over 5 methods x 8 targets (bodies of 0, 7, 9, 20 000 and 150 000 bytes, an echo, a panicking handler, an unrouted path) x 2 versions x Connection variants x bodies 0..9000 bytes x malformed kinds x idle gaps, an explicit segmentation (cut offsets + inter-segment gap) of the client byte stream, lock-step or streamed pacing, an ending (close / half-close / wait / RST) and optional truncation of the last request, all under one seeded schedule and seeded network knobs (short reads/writes, default segmentation, tiny windows, latency). Distinct = distinct history shape: per client the sequence of (method, target kind, well-formedness, pacing, number of segments, statuses received, how the connection ended). Non-trivial = at least two requests on one connection or two overlapping connections, and at least one cut inside a request."
     }
     fn assumptions(&self) -> Vec<String> {
         vec![
